@@ -7,7 +7,7 @@ package wal
 import (
 	"context"
 	"fmt"
-	"io"
+	"io/ioutil"
 	"strings"
 	"time"
 
@@ -189,12 +189,14 @@ func newWalChannels() *walChannels {
 	entry := make(chan *model.Entry)
 	entries := make(chan []model.Entry)
 	count := make(chan int)
+	oops := make(chan error)
 	done := make(chan struct{})
 	return &walChannels{
 		tokens:  token,
 		entry:   entry,
 		entries: entries,
 		count:   count,
+		oops:    oops,
 		done:    done,
 	}
 }
@@ -264,25 +266,19 @@ func (w *WAL) read(ctx context.Context, token string, channels *walChannels) {
 	defer w.releaseConnection() // concurrency control
 	r, err := w.walStore.Get(ctx, token)
 	w.l.Debug("Read token", zap.String("token", token))
-	defer r.Close()
 	if err != nil {
 		channels.oops <- err
 		return
 	}
-	b := make([]byte, 1024)
-	for {
-		l, e := r.Read(b)
-		if e == io.EOF {
-			b = b[:l]
-			break
-		}
-	}
-	entry, err := model.UnmarshalWAL(b)
+	defer r.Close()
+
+	// the object stored under a token is the payload of the entry, as written by Add
+	b, err := ioutil.ReadAll(r)
 	if err != nil {
 		channels.oops <- fmt.Errorf("token: %s, err: %s", token, err)
 		return
 	}
-	channels.entry <- entry
+	channels.entry <- model.NewEntry(token, string(b))
 }
 
 func (w *WAL) collectParallelResponses(ctx context.Context, channels *walChannels) {
